@@ -40,6 +40,9 @@ type l2Profile struct {
 	Plans    bool
 	ClientID string // when set, the genesis bridge info is present and bound to this L1 light client
 	ForceBridgeInfo bool
+	NodeMinGas      string   // node-local min gas prices of the world's own node
+	ExtraDenoms     []string // additional native denoms every user holds (fee denoms)
+	WhaleFees       bool
 	Pairs    []string
 	NonTriv  func(w *l2World) bool
 }
@@ -86,6 +89,8 @@ type l2World struct {
 	histEntriesAtBegin uint32
 	histWritten map[int64]bool
 	noWrap    bool
+	feeBook   []feeEntry // declared fee per tx of the block being executed (C20); nil = fees are zero
+	genesis   *node.L2Genesis
 	pendingHost []node.HostSetUpdate
 	l1Rcpts   []string // valid L1 recipient strings (set by the two-chain world)
 	lastRes   *abci.ResponseFinalizeBlock
@@ -174,9 +179,18 @@ func newL2WorldOpt(r *core.Run, p *l2Profile, fixedBridge uint64, bases []string
 	for _, a := range w.users {
 		w.ustr = append(w.ustr, a.String())
 		amt := uint64(1_000_000 + r.Intn(1_000_000))
-		bal[a.String()] = sdk.NewCoins(sdk.NewCoin("umin", math.NewIntFromUint64(amt)))
+		if p.WhaleFees {
+			amt = 1 << 60
+		}
+		cs := sdk.NewCoins(sdk.NewCoin("umin", math.NewIntFromUint64(amt)))
 		w.m.Bal.add(a, "umin", new(big.Int).SetUint64(amt))
 		w.m.supplyAdd("umin", new(big.Int).SetUint64(amt))
+		for _, d := range p.ExtraDenoms {
+			cs = cs.Add(sdk.NewCoin(d, math.NewIntFromUint64(amt)))
+			w.m.Bal.add(a, d, new(big.Int).SetUint64(amt))
+			w.m.supplyAdd(d, new(big.Int).SetUint64(amt))
+		}
+		bal[a.String()] = cs
 	}
 	// account numbers as assigned by the genesis builder (sorted bech32 order)
 	sorted := append([]string{}, w.ustr...)
@@ -214,7 +228,9 @@ func newL2WorldOpt(r *core.Run, p *l2Profile, fixedBridge uint64, bases []string
 	if p.Pairs != nil {
 		pairs = p.Pairs
 	}
-	w.n = node.NewL2(w.db, &node.L2Genesis{Time: w.now, Balances: bal, Opchild: gen, CurrencyPairs: pairs}, w.opts, nil)
+	w.opts.MinGasPrices = p.NodeMinGas
+	w.genesis = &node.L2Genesis{Time: w.now, Balances: bal, Opchild: gen, CurrencyPairs: pairs}
+	w.n = node.NewL2(w.db, w.genesis, w.opts, nil)
 	w.enc = w.n.Enc
 	w.eng = engine.New([]string{"ed25519"})
 	if err := w.eng.InitChain(w.n.InitValidators); err != nil {
@@ -837,6 +853,20 @@ func (w *l2World) execBlock(bc blockCtx, txs []l2Pending, crash string) *core.Vi
 			status = "FAIL(" + firstLine(tr.Log) + ")"
 		}
 		r.Step("tx."+pt.Kind, "%s %s%s -> %s", pt.Desc, pt.Fault, lowGasTag(pt.LowGas), status)
+		if i < len(w.feeBook) && !w.feeBook[i].Fee.IsZero() {
+			// the fee is deducted whenever the ante handler passed, whatever happens to the messages
+			for _, a := range node.EventAttrs(tr.Events, "tx") {
+				if _, ok := a["fee"]; ok {
+					fc := authtypes.NewModuleAddress(authtypes.FeeCollectorName)
+					for _, cn := range w.feeBook[i].Fee {
+						w.m.Bal.add(w.feeBook[i].Payer, cn.Denom, new(big.Int).Neg(cn.Amount.BigInt()))
+						w.m.Bal.add(fc, cn.Denom, cn.Amount.BigInt())
+					}
+					anySuccess = true
+					break
+				}
+			}
+		}
 		if oog {
 			continue
 		}
@@ -848,6 +878,7 @@ func (w *l2World) execBlock(bc blockCtx, txs []l2Pending, crash string) *core.Vi
 			w.succ[pt.Kind]++
 		}
 	}
+	w.feeBook = nil
 	return w.endOfBlock(bc, res, anySuccess)
 }
 
@@ -887,6 +918,11 @@ func sameUpdates(a, b []abci.ValidatorUpdate) string {
 		}
 	}
 	return ""
+}
+
+type feeEntry struct {
+	Payer []byte
+	Fee   sdk.Coins
 }
 
 type txOutcome struct {
